@@ -78,6 +78,7 @@ class RunTaskExecutable(Operation):
     def start_execution(
         self, ctx: Context, slot: Optional[int]
     ) -> OperationExecutionHandle:
+        process = None
         try:
             # Versioned outputs must start from a fresh directory (an existing
             # one would hold files from an earlier, possibly failed, run).
